@@ -178,3 +178,7 @@ Definition sdp_differ_only_in (f : field) (bs bs' : list Z) : Prop :=
   (f <> FData -> length bs = length bs')
   /\ forall i, (i < length bs)%nat -> (i < length bs')%nat ->
                sdp_others f i (nth i bs 0) = sdp_others f i (nth i bs' 0).
+
+(* numpy's int8 arithmetic: results are reduced to -128..127 (used only to record why the source converts the
+   ports with int() before masking and shifting; numpy itself is modelled, not verified) *)
+Definition wrap_int8 (z : Z) : Z := (z + 128) mod 256 - 128.
